@@ -729,8 +729,10 @@ class MyPyAstVisitor:
         unanalyzed_type: mp_types.Type | None,
         is_static: bool = True,
     ) -> list[Attribute]:
-        assert isinstance(lvalue, mp_nodes.NameExpr | mp_nodes.MemberExpr | mp_nodes.TupleExpr)
         attributes: list[Attribute] = []
+        if not isinstance(lvalue, mp_nodes.NameExpr | mp_nodes.MemberExpr | mp_nodes.TupleExpr):
+            # Assignments to subscripts ("self.d[key] = value") or starred targets do not declare attributes
+            return attributes
 
         if hasattr(lvalue, "name"):
             if self._is_attribute_already_defined(lvalue.name):
@@ -743,8 +745,9 @@ class MyPyAstVisitor:
         elif hasattr(lvalue, "items"):
             lvalues = list(lvalue.items)
             for lvalue_ in lvalues:
-                if not hasattr(lvalue_, "name"):  # pragma: no cover
-                    raise AttributeError("Expected value to have attribute 'name'.")
+                if not hasattr(lvalue_, "name"):
+                    # e.g. the starred part of "first, *rest = values"
+                    continue
 
                 if self._is_attribute_already_defined(lvalue_.name):
                     continue
